@@ -43,15 +43,16 @@ namespace
     };
     struct Op
     {
-        int kind, tim, a, b; // PLAN: a=interval b=start offset; SETACT: a=action; EXEC: a=dt
+        int kind, tim;
+        int64_t a, b; // PLAN: a=interval b=start offset; SETACT: a=action; EXEC: a=dt
     };
     std::string describe(const Op &o)
     {
-        char b[96];
+        char b[128];
         switch (o.kind)
         {
         case K_PLAN:
-            snprintf(b, sizeof b, "plan(t%d, start=now%+d, interval=%d)", o.tim, o.b, o.a);
+            snprintf(b, sizeof b, "plan(t%d, start=now%+lld, interval=%lld)", o.tim, (long long)o.b, (long long)o.a);
             break;
         case K_SETACT:
             snprintf(b, sizeof b, "callback(t%d):=%s", o.tim, act_name(o.a));
@@ -60,10 +61,39 @@ namespace
             snprintf(b, sizeof b, "unplan(t%d)", o.tim);
             break;
         default:
-            snprintf(b, sizeof b, "exec(now+=%d)", o.a);
+            snprintf(b, sizeof b, "exec(now+=%lld)", (long long)o.a);
         }
         return b;
     }
+
+    // Magnitude class of a history: where the clock starts, the size of the intervals / steps, and the last
+    // time value the workload may reach. Everything igris computes (start+interval, now-start, start+=interval)
+    // stays representable in int64: the statement does not fix behaviour at wrap-around, so it is not driven.
+    const int64_t P31 = 1LL << 31, P32 = 1LL << 32, P40 = 1LL << 40, P60 = 1LL << 60, P62 = 1LL << 62;
+    struct Mag
+    {
+        const char *name;
+        int64_t base;    // initial now
+        int64_t S;       // 0: small intervals/steps (1..~100); else intervals lie in [S/4, S+1]
+        int64_t horizon; // now never exceeds this
+    };
+    const Mag MAGS[] = {
+        {"small", 1000, 0, 1000 + P40},
+        {"clock crossing 2^31", P31 - 40, 0, P31 + P40},
+        {"clock crossing 2^32", P32 - 40, 0, P32 + P40},
+        {"clock crossing 0 from below", -60, 0, P40},
+        {"clock at 2^62", P62, 0, P62 + P40},
+        {"clock near INT64_MAX", INT64_MAX - P40, 0, INT64_MAX - P32},
+        {"clock near INT64_MIN", INT64_MIN + P40, 0, INT64_MIN + 2 * P40},
+        {"intervals ~2^31", 0, P31, P40},
+        {"intervals ~2^31, clock from -2^33", -8 * P32 / 4, P31, P40},
+        {"intervals ~2^32", 12345, P32, P40 + P40},
+        {"intervals ~2^33 at 2^62", P62, 2 * P32, P62 + P40 + P40},
+        {"intervals ~2^60", -P60, P60, P62 - 4 * P60 + 3 * P60}, // horizon 2^62 - 2^60: + 3 S < 2^63
+        {"intervals ~2^62 from INT64_MIN", INT64_MIN + P40, P62 - 16, INT64_MIN + P40 + P62 + P60}, // 2*interval+2 < 2^63
+    };
+    const int NMAGS = sizeof MAGS / sizeof MAGS[0];
+    inline bool fits64(__int128 v) { return v >= (__int128)INT64_MIN && v <= (__int128)INT64_MAX; }
 
     struct World;
     World *cur = nullptr;
@@ -97,7 +127,7 @@ namespace
     struct World
     {
         int NT;
-        int64_t now = 1000;
+        int64_t base, now, horizon = INT64_MAX / 2;
         igris::timer_manager *mgr;
         igris::timer_head *tim[TMAX];
         Host *host;
@@ -113,7 +143,8 @@ namespace
         uint64_t variant = 0;
         std::string optag = "setup";
 
-        explicit World(int nt) : NT(nt)
+        // unit: interval a timer has before it was ever planned (used by the plan-other callback action)
+        explicit World(int nt, int64_t base_ = 1000, int64_t unit = 1) : NT(nt), base(base_), now(base_)
         {
             syslock_reset();
             mgr = new igris::timer_manager;
@@ -136,12 +167,26 @@ namespace
                 }
                 planned[i] = false;
                 start[i] = 0;
-                interval[i] = 1;
+                interval[i] = unit;
                 action[i] = A_NOTHING;
             }
             cur = this;
         }
         int64_t deadline(int i) const { return start[i] + interval[i]; }
+        // for messages only: x relative to the initial now, saturating
+        long long rel(int64_t x) const
+        {
+            __int128 d = (__int128)x - base;
+            return d > INT64_MAX ? INT64_MAX : d < INT64_MIN ? INT64_MIN : (long long)d;
+        }
+        // may (start, interval) be planned without any quantity igris computes up to `horizon` leaving int64?
+        // deadline and the re-armed deadline (also after a re-plan from the callback: now+1+2*interval), now-start
+        bool ok_plan(__int128 st, int64_t iv) const
+        {
+            __int128 top = st > horizon ? st : (__int128)horizon;
+            return iv > 0 && fits64(st) && fits64((__int128)horizon - st) && fits64((__int128)now - st) && fits64((__int128)st - 2) && fits64(top + 2 * (__int128)iv + 2) &&
+                   fits64(2 * (__int128)iv + 2) && fits64((__int128)st + iv - now);
+        }
         std::string history_text() const
         {
             std::string s;
@@ -162,8 +207,8 @@ namespace
             std::string s = "reference pending {";
             for (int i = 0; i < NT; i++)
                 if (planned[i])
-                    s += " t" + std::to_string(i) + "@" + std::to_string(deadline(i) - 1000) + "/" + std::to_string(interval[i]);
-            return s + " } now=" + std::to_string(now - 1000);
+                    s += " t" + std::to_string(i) + "@" + std::to_string(rel(deadline(i))) + "/" + std::to_string(interval[i]);
+            return s + " } now=" + std::to_string(rel(now));
         }
         void violation(const char *clause, const char *fmt, ...) __attribute__((format(printf, 3, 4)))
         {
@@ -175,8 +220,8 @@ namespace
             char key[180];
             snprintf(key, sizeof key, "%s:%s", clause, optag.c_str());
             failed = true;
-            vf::fail_nothrow(key, "%s | %s | timers=%d (times relative to 1000) history(%zu ops): %s", msg, pending_text().c_str(), NT, upto,
-                             history_text().c_str());
+            vf::fail_nothrow(key, "%s | %s | timers=%d (times relative to the initial now=%lld) history(%zu ops): %s", msg, pending_text().c_str(), NT,
+                             (long long)base, upto, history_text().c_str());
         }
         void settle()
         {
@@ -186,6 +231,12 @@ namespace
         // ---- operations on igris + reference
         void plan_both(int i, int64_t st, int64_t iv, bool two_step)
         {
+            // harness self-check: the workload must stay where everything igris computes is representable
+            if (!ok_plan(st, iv))
+            {
+                violation("harness:domain", "plan(start=%lld, interval=%lld) at now=%lld leaves the int64 domain", (long long)st, (long long)iv, (long long)now);
+                return;
+            }
             if (two_step)
             {
                 tim[i]->set_start(st);
@@ -227,12 +278,12 @@ namespace
             }
             VF_OK("an unplanned timer never fires (every firing timer is pending in the reference)");
             if (deadline(id) > now)
-                violation("fired-early", "t%d fired at now=%lld, %lld before its deadline", id, (long long)(now - 1000), (long long)(deadline(id) - now));
+                violation("fired-early", "t%d fired at now=%lld, %lld before its deadline", id, rel(now), (long long)(deadline(id) - now));
             VF_OK("never fires before start+interval");
             for (int j = 0; j < NT; j++)
                 if (planned[j] && deadline(j) < deadline(id))
-                    violation("fired-out-of-order", "t%d (deadline %lld) fired while t%d (deadline %lld) is pending", id, (long long)(deadline(id) - 1000), j,
-                              (long long)(deadline(j) - 1000));
+                    violation("fired-out-of-order", "t%d (deadline %lld) fired while t%d (deadline %lld) is pending", id, rel(deadline(id)), j,
+                              rel(deadline(j)));
             VF_OK("each fired timer has the minimum deadline of the pending set at that moment");
             static int act_ids[A_COUNT];
             static bool have;
@@ -300,8 +351,8 @@ namespace
                 for (int j = 0; j < NT; j++)
                     if (planned[j] && deadline(j) <= now)
                     {
-                        violation("due-timer-not-fired", "exec(%lld) returned while t%d is due since %lld", (long long)(now - 1000), j,
-                                  (long long)(deadline(j) - 1000));
+                        violation("due-timer-not-fired", "exec(%lld) returned while t%d is due since %lld", rel(now), j,
+                                  rel(deadline(j)));
                         break;
                     }
                 VF_OK("at the return of exec(now) no pending timer is due");
@@ -327,8 +378,8 @@ namespace
                 if (p != planned[i])
                     violation("is_planned!=reference", "t%d: is_planned()=%d, reference %d", i, (int)p, (int)planned[i]);
                 else if (p && tim[i]->finish() != deadline(i))
-                    violation("deadline!=reference", "t%d: finish()=%lld, reference deadline %lld", i, (long long)(tim[i]->finish() - 1000),
-                              (long long)(deadline(i) - 1000));
+                    violation("deadline!=reference", "t%d: finish()=%lld, reference deadline %lld", i, rel(tim[i]->finish()),
+                              rel(deadline(i)));
                 if (planned[i] && (!any || deadline(i) < mind))
                     mind = deadline(i);
                 any |= planned[i];
@@ -415,10 +466,18 @@ namespace
     };
     // alphabet: PLAN 3*3*2, SETACT 3*5, UNPLAN 3, EXEC 4
     const int A_PLAN = DN * 3 * 2, A_SET = (int)DN * (int)A_COUNT, A_UNP = DN, A_EXE = 4, ALPHA = A_PLAN + A_SET + A_UNP + A_EXE;
-    Op decode(int c)
+    // exhaustive histories are also run with every time quantity multiplied by K (K = 1: the plain small-value run)
+    struct Scale
+    {
+        const char *name;
+        int64_t base, K;
+    };
+    const Scale SCALES[] = {{"x1", 1000, 1}, {"x2^31", 0, P31}, {"x2^32 clock from 2^32-7", P32 - 7, P32}, {"x(2^31+1) clock from -2^40", -P40, P31 + 1}, {"x2^56 clock from -2^62", -P62, 1LL << 56}};
+    const int NSCALES = sizeof SCALES / sizeof SCALES[0];
+    Op decode(int c, int64_t K = 1)
     {
         if (c < A_PLAN)
-            return Op{K_PLAN, c / 6, IVS[(c / 2) % 3], OFFS[c % 2]};
+            return Op{K_PLAN, c / 6, IVS[(c / 2) % 3] * K, OFFS[c % 2] * K};
         c -= A_PLAN;
         if (c < A_SET)
             return Op{K_SETACT, c / A_COUNT, c % A_COUNT, 0};
@@ -426,7 +485,7 @@ namespace
         if (c < A_UNP)
             return Op{K_UNPLAN, c, 0, 0};
         c -= A_UNP;
-        return Op{K_EXEC, 0, DTS[c], 0};
+        return Op{K_EXEC, 0, DTS[c] * K, 0};
     }
     uint64_t variant_of(const std::vector<int> &h, size_t i)
     {
@@ -447,12 +506,13 @@ namespace
         }
         return exec_after;
     }
-    bool run_history(const std::vector<int> &h)
+    bool run_history(const std::vector<int> &h, int sc = 0)
     {
         std::vector<Op> ops;
         for (int c : h)
-            ops.push_back(decode(c));
-        World *w = new World(DN);
+            ops.push_back(decode(c, SCALES[sc].K));
+        World *w = new World(DN, SCALES[sc].base, SCALES[sc].K);
+        w->horizon = SCALES[sc].base + 120 * SCALES[sc].K;
         w->hist = &ops;
         try
         {
@@ -466,7 +526,9 @@ namespace
                 if (i + 1 == ops.size())
                     w->check(); // the prefix was checked when it was the end of a shorter history
             }
-            vf::count_case(vf::hash_bytes(h.data(), h.size() * sizeof(int), 0xD0), nontrivial(ops));
+            vf::count_case(vf::hash_bytes(h.data(), h.size() * sizeof(int), 0xD0 + (uint64_t)sc), nontrivial(ops));
+            if (sc && nontrivial(ops))
+                VF_OK("exhaustive history with every time quantity scaled by >= 2^31");
             w->teardown(h.empty() ? 0 : variant_of(h, h.size() - 1) >> 7);
             delete w;
             return true;
@@ -477,9 +539,9 @@ namespace
             return false; // leak the world
         }
     }
-    void dfs(std::vector<int> &h, int maxdepth)
+    void dfs(std::vector<int> &h, int maxdepth, int sc = 0)
     {
-        if (!run_history(h))
+        if (!run_history(h, sc))
             return;
         if ((int)h.size() >= maxdepth)
             return;
@@ -491,7 +553,7 @@ namespace
             if (den > 1 && vf::mix(hh, (uint64_t)c) % (uint64_t)den != 0)
                 continue;
             h.push_back(c);
-            dfs(h, maxdepth);
+            dfs(h, maxdepth, sc);
             h.pop_back();
         }
     }
@@ -520,23 +582,89 @@ namespace
     }
     VF_SUITE(timers_dfs, dfs_count, dfs_run)
 
+    // the same enumeration one level shallower, with all time quantities multiplied by 2^31, 2^32, 2^31+1, 2^56
+    int big_depth() { return vf::thorough() ? 4 : 3; }
+    uint64_t dfs_big_count() { return limited("dfs_big", (uint64_t)(NSCALES - 1) * ALPHA * ALPHA); }
+    void dfs_big_run(uint64_t idx)
+    {
+        int sc = 1 + (int)(idx / ((uint64_t)ALPHA * ALPHA));
+        idx %= (uint64_t)ALPHA * ALPHA;
+        std::vector<int> h;
+        if (idx == 0)
+            run_history(h, sc);
+        int a1 = (int)(idx / ALPHA), a2 = (int)(idx % ALPHA);
+        h.push_back(a1);
+        if (a2 == 0 && !run_history(h, sc))
+            return;
+        h.push_back(a2);
+        int md = big_depth();
+        // at depth 3 the deepest level is complete; thorough depth 4 keeps the 1/4 leaf sample of dfs()
+        if (vf::thorough())
+            dfs(h, md, sc);
+        else
+        {
+            if (!run_history(h, sc))
+                return;
+            for (int c = 0; c < ALPHA; c++)
+            {
+                h.push_back(c);
+                run_history(h, sc);
+                h.pop_back();
+            }
+        }
+    }
+    VF_SUITE(timers_dfs_big, dfs_big_count, dfs_big_run)
+
     // ------------------------------------------------------------------ random histories
-    uint64_t rnd_count() { return limited("rnd", vf::thorough() ? 300000 : 3000); }
+    // value classes for one magnitude class: boundary values of S (2^31, 2^32, 2^60, 2^62 ...) and fractions of it
+    int64_t big_interval(vf::Rng &r, int64_t S)
+    {
+        const int64_t c[] = {S, S - 1, S + 1, S / 2, S / 2 + 1, S / 4, S / 4 + 3, S / 2 - 1, S / 4 + (int64_t)r.below((uint64_t)(S / 2))};
+        return r.pick(c);
+    }
+    int64_t big_offset(vf::Rng &r, int64_t S)
+    {
+        const int64_t c[] = {0, 0, -1, 1, -S / 4, S / 4, -S, S / 2, -(S / 4 + 1), -S - 1, -(int64_t)r.below((uint64_t)S)};
+        return r.pick(c);
+    }
+    __int128 big_step(vf::Rng &r, int64_t S, bool far)
+    {
+        if (far) // many periods ahead
+            return (__int128)r.range(5, 40) * (S / 4) + r.range(-2, 2);
+        const __int128 c[] = {0, 1, 2, S / 4, S / 4 - 1, S / 4 + 1, S / 2, S, (__int128)S + 1, S - 1, 2 * (__int128)S + 5, (__int128)r.below((uint64_t)S)};
+        return r.pick(c);
+    }
+    uint64_t rnd_count() { return limited("rnd", vf::thorough() ? 300000 : 4000); }
     void rnd_run(uint64_t idx)
     {
         vf::Rng r(vf::seed(), 0xC1600, idx);
         int NT = r.range(2, TMAX);
         int mode = (int)r.below(4); // 0 mixed, 1 small intervals/large jumps (catch-up), 2 equal deadlines, 3 callback-heavy
+        // magnitude class: a third of the histories stay in the plain small class, the rest cycle through all others
+        const Mag &mg = MAGS[idx % 3 == 0 ? 0 : 1 + (idx / 3) % (NMAGS - 1)];
+        const int64_t S = mg.S;
+        // a class whose whole travel is only a few periods gets shorter histories
+        int steps = (S && (__int128)mg.horizon - mg.base < 200 * (__int128)(S / 4)) ? 40 : 200;
         std::vector<Op> ops;
-        ops.reserve(200);
-        World *w = new World(NT);
+        ops.reserve(steps);
+        World *w = new World(NT, mg.base, S ? S / 4 : 1);
+        w->horizon = mg.horizon;
         w->hist = &ops;
         if (vf::verbose())
-            printf("  random history: timers=%d mode=%d\n", NT, mode);
+            printf("  random history: timers=%d mode=%d magnitude class '%s' (now starts at %lld)\n", NT, mode, mg.name, (long long)mg.base);
+        static int mag_ids[NMAGS];
+        static bool have;
+        if (!have)
+        {
+            for (int i = 0; i < NMAGS; i++)
+                mag_ids[i] = vf::clause_id((std::string("random history in magnitude class: ") + MAGS[i].name).c_str());
+            have = true;
+        }
         try
         {
             w->check();
-            for (int s = 0; s < 200; s++)
+            bool big_exec = false;
+            for (int s = 0; s < steps; s++)
             {
                 Op o;
                 int k = (int)r.below(10);
@@ -545,8 +673,26 @@ namespace
                 if (k < 4)
                 {
                     o.kind = K_PLAN;
-                    o.a = mode == 1 ? r.range(1, 3) : mode == 2 ? (r.chance(1, 2) ? 4 : 2) : (int)r.pick(IVS) + (r.chance(1, 4) ? r.range(0, 30) : 0);
-                    o.b = mode == 2 ? (r.chance(1, 2) ? 0 : -2) : r.chance(1, 2) ? 0 : r.range(-12, 6);
+                    if (S)
+                    {
+                        o.a = mode == 2 ? (r.chance(1, 2) ? S : S / 2) : big_interval(r, S);
+                        o.b = mode == 2 ? (r.chance(1, 2) ? 0 : -S / 2) : big_offset(r, S);
+                    }
+                    else
+                    {
+                        o.a = mode == 1 ? r.range(1, 3) : mode == 2 ? (r.chance(1, 2) ? 4 : 2) : (int)r.pick(IVS) + (r.chance(1, 4) ? r.range(0, 30) : 0);
+                        o.b = mode == 2 ? (r.chance(1, 2) ? 0 : -2) : r.chance(1, 2) ? 0 : r.range(-12, 6);
+                    }
+                    // stay inside the representable domain (never needed for the small classes)
+                    if (!w->ok_plan((__int128)w->now + o.b, o.a))
+                        o.b = 0;
+                    if (!w->ok_plan((__int128)w->now + o.b, o.a))
+                        o.a = S ? S / 4 : 1;
+                    if (!w->ok_plan((__int128)w->now + o.b, o.a))
+                    {
+                        o.kind = K_UNPLAN; // the class has no room left for a new deadline
+                        o.a = o.b = 0;
+                    }
                 }
                 else if (k < 6)
                 {
@@ -562,7 +708,29 @@ namespace
                 {
                     o.kind = K_EXEC;
                     o.tim = 0;
-                    o.a = mode == 1 ? (r.chance(1, 3) ? r.range(20, 120) : r.range(0, 3)) : r.chance(1, 8) ? r.range(10, 60) : r.range(0, 4);
+                    __int128 want = 0;
+                    o.a = 0;
+                    if (S)
+                        want = big_step(r, S, mode == 1 ? r.chance(1, 3) : r.chance(1, 10));
+                    else
+                        o.a = mode == 1 ? (r.chance(1, 3) ? r.range(20, 120) : r.range(0, 3)) : r.chance(1, 8) ? r.range(10, 60) : r.range(0, 4);
+                    // a quarter of the steps aim at the earliest deadline: one before, exactly at, one after
+                    if (r.chance(1, 4))
+                    {
+                        bool any = false;
+                        int64_t mind = 0;
+                        for (int i = 0; i < NT; i++)
+                            if (w->planned[i] && (!any || w->deadline(i) < mind))
+                                mind = w->deadline(i), any = true;
+                        __int128 d = (__int128)mind - w->now + r.range(-1, 1);
+                        if (any && d >= 0 && (S ? d <= 3 * (__int128)S : d <= 200))
+                            want = d, o.a = 0;
+                    }
+                    want += o.a;
+                    __int128 room = (__int128)mg.horizon - w->now;
+                    o.a = (int64_t)(want <= room ? want : room / 2);
+                    if (o.a >= P31)
+                        big_exec = true;
                 }
                 ops.push_back(o);
                 if (vf::verbose())
@@ -574,14 +742,17 @@ namespace
             }
             uint64_t hh = 0xEE;
             for (auto &o : ops)
-                hh = vf::mix(hh, ((uint64_t)o.kind << 48) ^ ((uint64_t)o.tim << 40) ^ ((uint64_t)(o.a & 0xffff) << 16) ^ (uint64_t)(o.b & 0xffff));
-            vf::count_case(vf::mix(hh, NT), nontrivial(ops));
-            if (vf::want_sample())
+                hh = vf::mix(hh, vf::mix(((uint64_t)o.kind << 8) ^ (uint64_t)o.tim, vf::mix((uint64_t)o.a, (uint64_t)o.b)));
+            vf::count_case(vf::mix(hh, (uint64_t)NT * 64 + (uint64_t)(&mg - MAGS)), nontrivial(ops));
+            vf::clause_hit(mag_ids[&mg - MAGS]);
+            if (big_exec && nontrivial(ops))
+                VF_OK("random history with exec() steps of >= 2^31 ticks");
+            if (vf::want_sample() && (idx % 3))
             {
                 std::string s;
                 for (size_t i = 0; i < 6 && i < ops.size(); i++)
                     s += describe(ops[i]) + "; ";
-                vf::sample("random history, %d timers, mode %d, 200 ops: %s...", NT, mode, s.c_str());
+                vf::sample("random history, %d timers, mode %d, class '%s' (now0=%lld), %d ops: %s...", NT, mode, mg.name, (long long)mg.base, steps, s.c_str());
             }
             w->teardown(r.next());
             delete w;
@@ -611,22 +782,72 @@ namespace
         std::string h = hist.size() > 1200 ? "... " + hist.substr(hist.size() - 1200) : hist;
         vf::fail(key, "%s | history: %s", msg, h.c_str());
     }
-    void stimer_history(vf::Rng &r, int steps, bool small)
+    // magnitude classes for the flag timer: all fields are `long` (64 bit here); values stay below 2^62 in
+    // absolute value so that neither igris (start+interval, curtime-start) nor the reference overflows
+    struct SMag
+    {
+        const char *name;
+        long base, S; // S == 0: small values; S == -1: small intervals, huge jumps / far-away starts
+    };
+    const SMag SMAGS[] = {{"small", 500, 0},
+                          {"clock crossing 2^31", P31 - 30, 0},
+                          {"clock crossing 2^32", P32 - 30, 0},
+                          {"clock at 2^61", 1L << 61, 0},
+                          {"clock at -2^61", -(1L << 61), 0},
+                          {"short interval, jumps and starts ~2^31..2^33 away", 77, -1},
+                          {"intervals ~2^31", 5, P31},
+                          {"intervals ~2^32", -P32, P32},
+                          {"intervals ~2^32 at 2^40", P40, P32},
+                          {"intervals ~2^59", -(1L << 60), 1L << 59}};
+    const int NSMAGS = sizeof SMAGS / sizeof SMAGS[0];
+    inline bool in62(__int128 v) { return v > -(__int128)P62 && v < (__int128)P62; }
+    void stimer_history(vf::Rng &r, int steps, bool small, const SMag &mg)
     {
         stimer_head *t = (stimer_head *)malloc(sizeof(stimer_head));
         memset(t, 0xA5, sizeof *t);
         SRef m;
-        long now = 500;
-        std::string hist;
+        long now = mg.base;
+        const long S = mg.S;
+        std::string hist = std::string("[class '") + mg.name + "', now0=" + std::to_string(mg.base) + "] ";
         bool inited = false;
         uint64_t hh = 0x57;
         vf::cls("stimer");
+        auto far = [&]() -> long { // distances around 2^31, 2^32, 2^33
+            const long c[] = {P31 - 1, P31, P31 + 1, P32 - 1, P32, P32 + 5, 2 * P32 + 7, P31 + (long)r.below(P32)};
+            return r.pick(c);
+        };
+        auto pick_off = [&]() -> long {
+            if (S == 0)
+                return small ? r.range(-2, 2) : r.range(-40, 10);
+            if (S < 0)
+                return r.chance(1, 2) ? r.range(-3, 3) : (r.chance(1, 2) ? far() : -far()) + r.range(-6, 6);
+            const long c[] = {0, -1, 1, -S, S, -(S + 5), S / 2, -2 * S, S - 3, -(long)r.below((uint64_t)S)};
+            return r.pick(c);
+        };
+        auto pick_iv = [&]() -> long {
+            if (S <= 0)
+                return small || S < 0 ? r.range(1, 3) + (S < 0 && r.chance(1, 4) ? r.range(0, 20) : 0) : r.range(1, 25);
+            const long c[] = {1, 3, S - 1, S, S + 1, 2 * S + 5, S / 2, S / 2 + 1, 1 + (long)r.below((uint64_t)S)};
+            return r.pick(c);
+        };
+        auto pick_dt = [&](bool wide) -> long {
+            if (S == 0)
+                return small ? r.range(0, 3) : (wide && r.chance(1, 4) ? r.range(10, 100) : r.range(0, wide ? 5 : 30));
+            if (S < 0)
+                return r.chance(1, 3) ? far() + r.range(-6, 6) : r.range(0, 4);
+            const long c[] = {0, 1, S - 1, S, S + 1, S + 5, 2 * S, S / 2, (long)r.below((uint64_t)S), 3};
+            return r.pick(c);
+        };
+        bool big_seen = false;
         for (int s = 0; s < steps; s++)
         {
             int k = inited ? (int)r.below(7) : (int)r.below(2);
-            long st = now + (small ? r.range(-2, 2) : r.range(-40, 10)), iv = small ? r.range(1, 3) : r.range(1, 25);
-            char b[80];
-            hh = vf::mix(hh, (uint64_t)k * 1000003 + (uint64_t)(st - now + 100) * 131 + (uint64_t)iv);
+            long off = pick_off(), iv = pick_iv();
+            if (!in62((__int128)now + off) || !in62((__int128)now + off + iv + 1) || !in62((__int128)m.start + iv + 1) || !in62((__int128)now + off + m.interval + 1))
+                off = 0, iv = 1 + (iv & 3);
+            long st = now + off;
+            char b[120];
+            hh = vf::mix(hh, vf::mix((uint64_t)k, vf::mix((uint64_t)off, (uint64_t)iv)));
             switch (k)
             {
             case 0:
@@ -651,6 +872,8 @@ namespace
                 m.start = st;
                 break;
             case 3:
+                if (!in62((__int128)m.start + 2 * (__int128)m.interval + 1))
+                    break; // would leave the domain
                 hist += "stimer_swift; ";
                 stimer_swift(t);
                 m.start += m.interval;
@@ -658,7 +881,9 @@ namespace
             case 4:
             case 5:
             {
-                long dt = small ? r.range(0, 3) : (r.chance(1, 4) ? r.range(10, 100) : r.range(0, 5));
+                long dt = pick_dt(true);
+                if (!in62((__int128)now + dt) || !in62((__int128)m.start + 2 * (__int128)m.interval + 1))
+                    dt = 1;
                 now += dt;
                 snprintf(b, sizeof b, "now+=%ld, STIMER_PERIODIC; ", dt);
                 hist += b;
@@ -676,14 +901,16 @@ namespace
             }
             default:
             {
-                long dt = small ? r.range(0, 2) : r.range(0, 30);
+                long dt = pick_dt(false);
+                if (!in62((__int128)now + dt))
+                    dt = 1;
                 now += dt;
                 snprintf(b, sizeof b, "now+=%ld; ", dt);
                 hist += b;
             }
             }
             if (vf::verbose())
-                printf("  stimer %s\n", hist.c_str() + (hist.size() > 60 ? hist.size() - 60 : 0));
+                printf("  stimer %s\n", hist.c_str() + (hist.size() > 90 ? hist.size() - 90 : 0));
             bool due = m.planned && now - m.start >= m.interval;
             int got = stimer_check(t, now);
             if ((got != 0) != due)
@@ -699,15 +926,30 @@ namespace
                             t->interval, d, m.start, m.interval);
             VF_OK("stimer: stimer_check <=> planned && now-start >= interval (also probed at deadline-1, deadline, deadline+1)");
             VF_OK("stimer: start/interval/finish == reference");
+            long el = now - m.start;
+            if (m.planned && (el >= P31 || el < -P31 || m.interval >= P31))
+                big_seen = true;
         }
-        vf::count_case(hh, steps >= 3);
+        if (big_seen)
+            VF_OK("stimer: checked with an elapsed time or interval beyond 32 bits");
+        vf::count_case(vf::mix(hh, (uint64_t)(&mg - SMAGS)), steps >= 3);
         free(t);
     }
-    uint64_t stimer_count() { return limited("stimer", vf::thorough() ? 200000 : 4000); }
+    uint64_t stimer_count() { return limited("stimer", vf::thorough() ? 200000 : 6000); }
     void stimer_run(uint64_t idx)
     {
         vf::Rng r(vf::seed(), 0x57173, idx);
-        stimer_history(r, idx % 2 ? 60 : 12, idx % 4 < 2);
+        const SMag &mg = SMAGS[idx % 3 == 0 ? 0 : 1 + (idx / 3) % (NSMAGS - 1)];
+        static int ids[NSMAGS];
+        static bool have;
+        if (!have)
+        {
+            for (int i = 0; i < NSMAGS; i++)
+                ids[i] = vf::clause_id((std::string("stimer history in magnitude class: ") + SMAGS[i].name).c_str());
+            have = true;
+        }
+        stimer_history(r, idx % 2 ? 60 : 12, idx % 4 < 2, mg);
+        vf::clause_hit(ids[&mg - SMAGS]);
     }
     VF_SUITE(stimer, stimer_count, stimer_run)
 } // namespace
@@ -727,4 +969,11 @@ extern "C" void vf_setup()
         vf::require(c);
     for (int a = 0; a < A_COUNT; a++)
         vf::require((std::string("callback action ") + act_name(a)).c_str());
+    for (const char *c : {"exhaustive history with every time quantity scaled by >= 2^31", "random history with exec() steps of >= 2^31 ticks",
+                          "stimer: checked with an elapsed time or interval beyond 32 bits"})
+        vf::require(c);
+    for (int i = 0; i < NMAGS; i++)
+        vf::require((std::string("random history in magnitude class: ") + MAGS[i].name).c_str());
+    for (int i = 0; i < NSMAGS; i++)
+        vf::require((std::string("stimer history in magnitude class: ") + SMAGS[i].name).c_str());
 }
